@@ -48,6 +48,7 @@ type Col []Run
 type SvcCfg struct {
 	Kind string `json:"kind"` // samples series metrics spans tags profile
 	MaxQ int64  `json:"maxq"`
+	Par  int    `json:"par,omitempty"` // ParallelNum (workers of the round robin); 0 = 1
 }
 
 type Op struct {
@@ -314,6 +315,10 @@ type bench struct {
 	goahead  []chan bool // per service: lets the OnBeforeInsert callback return
 	before   []bool      // the worker sits in OnBeforeInsert (after swapBuffers, before client.Do)
 	l2       *bench2     // level 2: rows are recognised by content
+	base     []int         // per service: index of its first worker
+	par      []int         // per service: number of workers
+	wnext    []int         // per service: workers seen so far
+	wmap     map[int64]int // fetch-loop goroutine -> worker index (in order of first appearance within the service)
 	trouble  string
 }
 
@@ -332,7 +337,34 @@ func (b *bench) fail(s string) {
 
 type fakeClient struct {
 	b *bench
-	s int
+	s int // service
+}
+
+func gid() int64 {
+	var buf [64]byte
+	n := runtime.Stack(buf[:], false)
+	f := strings.Fields(string(buf[:n]))
+	if len(f) < 2 {
+		return -1
+	}
+	v, _ := strconv.ParseInt(f[1], 10, 64)
+	return v
+}
+
+// worker names the fetch loop that is calling (factory, OnBeforeInsert and Do all run on it). Call with b.mu held.
+func (b *bench) worker(svc int) int {
+	g := gid()
+	if w, ok := b.wmap[g]; ok {
+		return w
+	}
+	w := b.base[svc] + b.wnext[svc]
+	if b.wnext[svc] >= b.par[svc] {
+		b.trouble = "more fetch loops than workers on a service"
+		w = b.base[svc]
+	}
+	b.wnext[svc]++
+	b.wmap[g] = w
+	return w
 }
 
 var errInsert = errors.New("scripted insert failure")
@@ -340,9 +372,12 @@ var errDial = errors.New("scripted connection refused")
 
 func (c *fakeClient) Do(ctx context.Context, q ch.Query) error {
 	var ev Ev
+	c.b.mu.Lock()
+	w := c.b.worker(c.s)
+	c.b.mu.Unlock()
 	if c.b.l2 != nil {
 		e2 := (&fakeClient2{fakeClient: *c, b2: c.b.l2}).doLevel2(q.Input)
-		ev = Ev{T: "send", S: c.s, L2: &e2}
+		ev = Ev{T: "send", S: w, L2: &e2}
 	} else {
 		cols := make([]Col, len(q.Input))
 		for i, in := range q.Input {
@@ -352,16 +387,16 @@ func (c *fakeClient) Do(ctx context.Context, q ch.Query) error {
 			}
 			cols[i] = compress(v)
 		}
-		ev = Ev{T: "send", S: c.s, Cols: cols}
+		ev = Ev{T: "send", S: w, Cols: cols}
 	}
 	c.b.mu.Lock()
 	c.b.events = append(c.b.events, ev)
-	if c.b.inflight[c.s] {
+	if c.b.inflight[w] {
 		c.b.trouble = "two concurrent Do calls on one worker"
 	}
-	c.b.inflight[c.s] = true
+	c.b.inflight[w] = true
 	c.b.mu.Unlock()
-	ok := <-c.b.release[c.s]
+	ok := <-c.b.release[w]
 	if ok {
 		return nil
 	}
@@ -401,12 +436,13 @@ func (c *fakeClient) QueryRow(ctx context.Context, query string, args ...interfa
 func (b *bench) factory(s int) ch_wrapper.IChClientFactory {
 	return func() (ch_wrapper.IChClient, error) {
 		b.mu.Lock()
+		w := b.worker(s)
 		ok := true
-		if len(b.dials[s]) > 0 {
-			ok = b.dials[s][0]
-			b.dials[s] = b.dials[s][1:]
+		if len(b.dials[w]) > 0 {
+			ok = b.dials[w][0]
+			b.dials[w] = b.dials[w][1:]
 		}
-		b.events = append(b.events, Ev{T: "dial", S: s, Ok: ok})
+		b.events = append(b.events, Ev{T: "dial", S: w, Ok: ok})
 		b.mu.Unlock()
 		if !ok {
 			return nil, errDial
@@ -421,10 +457,11 @@ func (b *bench) factory(s int) ch_wrapper.IChClientFactory {
 func (b *bench) beforeInsert(s int) func() {
 	return func() {
 		b.mu.Lock()
-		b.events = append(b.events, Ev{T: "swap", S: s})
-		b.before[s] = true
+		w := b.worker(s)
+		b.events = append(b.events, Ev{T: "swap", S: w})
+		b.before[w] = true
 		b.mu.Unlock()
-		<-b.goahead[s]
+		<-b.goahead[w]
 	}
 }
 
@@ -578,34 +615,58 @@ type runner struct {
 	nextP int
 }
 
-func start(c *Case) *runner {
-	n := len(c.Svcs)
-	b := &bench{dials: make([][]bool, n), release: make([]chan bool, n), inflight: make([]bool, n),
-		goahead: make([]chan bool, n), before: make([]bool, n)}
+func newBench(pars []int, dials [][]bool) *bench {
+	b := &bench{wmap: map[int64]int{}}
+	w := 0
+	for _, p := range pars {
+		if p < 1 {
+			p = 1
+		}
+		b.base = append(b.base, w)
+		b.par = append(b.par, p)
+		b.wnext = append(b.wnext, 0)
+		w += p
+	}
+	b.dials = make([][]bool, w)
+	b.release = make([]chan bool, w)
+	b.inflight = make([]bool, w)
+	b.goahead = make([]chan bool, w)
+	b.before = make([]bool, w)
 	for i := range b.release {
 		b.release[i] = make(chan bool)
 		b.goahead[i] = make(chan bool)
-		if i < len(c.Dials) {
-			b.dials[i] = append([]bool(nil), c.Dials[i]...)
+		if i < len(dials) {
+			b.dials[i] = append([]bool(nil), dials[i]...)
 		}
 	}
+	return b
+}
+
+func (b *bench) workers() int { return len(b.release) }
+
+func start(c *Case) *runner {
+	pars := make([]int, len(c.Svcs))
+	for i, sc := range c.Svcs {
+		pars[i] = sc.Par
+	}
+	b := newBench(pars, c.Dials)
 	r := &runner{c: c, b: b, nextP: 1}
 	for i, sc := range c.Svcs {
 		node := &model.DataDatabasesMap{}
 		node.Node = "n"
 		node.WriteTimeout = 30
 		sv := newService(sc.Kind, model.InsertServiceOpts{Session: b.factory(i), Node: node, Interval: time.Hour,
-			ParallelNum: 1, MaxQueueSize: sc.MaxQ, OnBeforeInsert: b.beforeInsert(i)})
+			ParallelNum: b.par[i], MaxQueueSize: sc.MaxQ, OnBeforeInsert: b.beforeInsert(i)})
 		mm := sv.(*service.InsertServiceV2Multimodal)
 		mm.Init()
 		go mm.Run()
 		r.svcs = append(r.svcs, mm)
 	}
-	// wait until the 2n fetch loops (sync + async worker of each service) are in their select
+	// wait until the fetch loops (sync + async workers of each service) are in their select
 	deadline := time.Now().Add(10 * time.Second)
 	for {
 		q, run := parked()
-		if q && run == 2*n {
+		if q && run == 2*b.workers() {
 			break
 		}
 		if time.Now().After(deadline) {
@@ -691,7 +752,7 @@ func (r *runner) do(o *Op) []Ev {
 func (r *runner) finish() {
 	// let every parked worker go on and every blocked Do fail, stop everything, wait for the fetch loops to exit
 	for round := 0; round < 2; round++ {
-		for s := range r.svcs {
+		for s := 0; s < r.b.workers(); s++ {
 			r.b.mu.Lock()
 			bf := r.b.before[s]
 			r.b.before[s] = false
@@ -717,7 +778,7 @@ func (r *runner) finish() {
 		if run == 0 {
 			break
 		}
-		for s := range r.svcs {
+		for s := 0; s < r.b.workers(); s++ {
 			select {
 			case r.b.release[s] <- false:
 			default:
@@ -851,6 +912,8 @@ func (g *gen) newCase(id int) *Case {
 	c := &Case{ID: id, Attempts: 1}
 	g.nextRid = 1
 	ns := 1 + r.Intn(3)
+	parallel := r.Intn(4) == 0 // a quarter of the scripts has round robins of 2..3 workers
+	nw := 0
 	for i := 0; i < ns; i++ {
 		mq := int64(0)
 		switch r.Intn(4) {
@@ -859,72 +922,56 @@ func (g *gen) newCase(id int) *Case {
 		case 1:
 			mq = 1 << 30
 		}
-		c.Svcs = append(c.Svcs, SvcCfg{Kind: kinds[r.Intn(len(kinds))], MaxQ: mq})
-		c.Dials = append(c.Dials, []bool{})
+		par := 1
+		if parallel && r.Intn(3) != 0 {
+			par = 2 + r.Intn(2)
+		}
+		c.Svcs = append(c.Svcs, SvcCfg{Kind: kinds[r.Intn(len(kinds))], MaxQ: mq, Par: par})
+		for k := 0; k < par; k++ {
+			c.Dials = append(c.Dials, []bool{})
+		}
+		nw += par
 	}
-	malformed := r.Intn(5) == 0
+	malformed := !parallel && r.Intn(5) == 0
 	c.Class = "wf"
 	if malformed {
 		c.Class = "malformed"
 	}
+	if parallel {
+		c.Class = "wf+parallel"
+	}
 	if r.Intn(40) == 0 { // a refused connection costs a real second
-		c.Dials[r.Intn(ns)] = []bool{false}
+		c.Dials[r.Intn(nw)] = []bool{false}
 		c.Class += "+dialfail"
 	}
 	return c
 }
 
-// generate-and-run: the next operation is chosen knowing which workers have a Do blocked
+// generate-and-run: the next operation is chosen knowing which workers are parked in OnBeforeInsert or in Do.
+// req / plan / stop name a service, send / ret name a worker.
 func (g *gen) runGenerated(c *Case) {
 	r := g.r
 	rn := start(c)
+	b := rn.b
 	malformed := strings.HasPrefix(c.Class, "malformed")
+	parallel := strings.Contains(c.Class, "parallel")
 	nops := 4 + r.Intn(11)
+	if parallel {
+		nops += 4
+	}
 	stopped := make([]bool, len(c.Svcs))
-	zeroSize := false
-	_ = zeroSize
-	for i := 0; i < nops && rn.b.trouble == ""; i++ {
-		s := r.Intn(len(c.Svcs))
-		var o Op
-		x := r.Intn(100)
-		rn.b.mu.Lock()
-		fl := rn.b.inflight[s]
-		bf := rn.b.before[s]
-		rn.b.mu.Unlock()
-		switch {
-		case bf && x < 40:
-			o = Op{T: "send", S: s}
-		case fl && x < 45:
-			o = Op{T: "ret", S: s, Ok: r.Intn(3) != 0}
-		case x < 70:
-			// very large requests only in well-formed scripts (the monitors' fast paths need whole rows)
-			cols, sz, rows, _ := g.request(c.Svcs[s].Kind, malformed && r.Intn(3) == 0, !malformed)
-			if kc := cols[keycol[c.Svcs[s].Kind]]; sz <= 0 && len(expand(kc)) > 0 {
-				zeroSize = true // accepted (key column not empty) but accounted with size 0: flushed all the same since the fix of swapBuffers
-			}
-			o = Op{T: "req", S: s, P: rn.nextP, Cols: cols, Sz: sz}
-			rn.nextP++
-			c.Rows += rows
-		case x < 97:
-			o = Op{T: "plan", S: s}
-		default:
-			if stopped[s] || fl || bf {
-				// Stop while a Do is blocked is observed by Run only after that Do returned, in a random
-				// order with a pending flush: not a deterministic script
-				o = Op{T: "plan", S: s}
-			} else {
-				o = Op{T: "stop", S: s}
-				stopped[s] = true
+	state := func(w int) (fl, bf bool) {
+		b.mu.Lock()
+		defer b.mu.Unlock()
+		return b.inflight[w], b.before[w]
+	}
+	svcBusy := func(s int) bool {
+		for w := b.base[s]; w < b.base[s]+b.par[s]; w++ {
+			if fl, bf := state(w); fl || bf {
+				return true
 			}
 		}
-		c.Ops = append(c.Ops, o)
-		c.Obs = append(c.Obs, rn.do(&c.Ops[len(c.Ops)-1]))
-	}
-	// drain: let every parked worker send, every blocked Do return with success, flush what is left, until a
-	// whole round of PlanFlush produces nothing
-	anyStop := false
-	for _, st := range stopped {
-		anyStop = anyStop || st
+		return false
 	}
 	step := func(o Op) []Ev {
 		c.Ops = append(c.Ops, o)
@@ -932,23 +979,61 @@ func (g *gen) runGenerated(c *Case) {
 		c.Obs = append(c.Obs, evs)
 		return evs
 	}
-	for round := 0; round < 6 && rn.b.trouble == ""; round++ {
+	for i := 0; i < nops && b.trouble == ""; i++ {
+		s := r.Intn(len(c.Svcs))
+		w := b.base[s] + r.Intn(b.par[s])
+		x := r.Intn(100)
+		fl, bf := state(w)
+		switch {
+		case bf && x < 40:
+			step(Op{T: "send", S: w})
+		case fl && x < 45:
+			step(Op{T: "ret", S: w, Ok: r.Intn(3) != 0})
+		case x < 70:
+			// very large requests only in well-formed scripts (the monitors' fast paths need whole rows)
+			cols, sz, rows, _ := g.request(c.Svcs[s].Kind, malformed && r.Intn(3) == 0, !malformed)
+			if parallel && len(expand(cols[keycol[c.Svcs[s].Kind]])) == 0 {
+				continue // which worker served a request that left no row cannot be told afterwards
+			}
+			step(Op{T: "req", S: s, P: rn.nextP, Cols: cols, Sz: sz})
+			rn.nextP++
+			c.Rows += rows
+		case x < 97:
+			step(Op{T: "plan", S: s})
+		default:
+			if stopped[s] || svcBusy(s) || b.par[s] > 1 {
+				// Stop while a Do is blocked is observed by Run only after that Do returned, in a random
+				// order with a pending flush: not a deterministic script
+				step(Op{T: "plan", S: s})
+			} else {
+				step(Op{T: "stop", S: s})
+				stopped[s] = true
+			}
+		}
+	}
+	// drain: let every parked worker send, every blocked Do return with success, flush what is left, until a
+	// whole round of PlanFlush produces nothing
+	anyStop := false
+	for _, st := range stopped {
+		anyStop = anyStop || st
+	}
+	for round := 0; round < 6 && b.trouble == ""; round++ {
 		busy := false
 		for s := range c.Svcs {
-			for k := 0; k < 4 && rn.b.trouble == ""; k++ {
-				rn.b.mu.Lock()
-				fl, bf := rn.b.inflight[s], rn.b.before[s]
-				rn.b.mu.Unlock()
-				if bf {
-					step(Op{T: "send", S: s})
-				} else if fl {
-					step(Op{T: "ret", S: s, Ok: true})
-				} else {
-					break
+			for w := b.base[s]; w < b.base[s]+b.par[s]; w++ {
+				for k := 0; k < 4 && b.trouble == ""; k++ {
+					fl, bf := state(w)
+					if bf {
+						step(Op{T: "send", S: w})
+					} else if fl {
+						step(Op{T: "ret", S: w, Ok: true})
+					} else {
+						break
+					}
+					busy = true
 				}
-				busy = true
 			}
-			if !stopped[s] && rn.b.trouble == "" {
+			if !stopped[s] && b.trouble == "" {
 				if len(step(Op{T: "plan", S: s})) > 0 {
 					busy = true
 				}
